@@ -7,20 +7,12 @@ import re
 
 from vf.gen.messages import BLOBEN, GRAMMAR, PARTS, STATES, SWITCH
 
-_NUM = re.compile(
-    r"^[ \t]*[-+]?(?:[0-9]+\.?[0-9]*|\.[0-9]+)(?:[eE][-+]?[0-9]+)?[ \t]*$"
-)
-_SEXA = re.compile(
-    r"^[ \t]*[-+]?[0-9]+(?:\.[0-9]*)?(?:[:; ][ ]*[0-9]+(?:\.[0-9]*)?){1,2}[ \t]*$"
-)
-
-
 def is_number_syntax(s) -> bool:
+    """INDI number syntax: one definition for the whole harness (vf.ref.number)."""
+    from vf.ref import number as RN
     if not isinstance(s, str):
         s = str(s)
-    if not s.isascii():
-        return False
-    return bool(_NUM.match(s) or _SEXA.match(s))
+    return RN.parse(s) is not None
 
 
 def nonconformities(view):
